@@ -102,4 +102,12 @@ theorem create_keeps_data (s1 : St) (c : Ctx) (n : Node) (pre : Attrs) (p : Byte
     (createExisting s1 c n pre p info how sa verf).1.fs = s1.fs :=
   createExisting_untouched s1 c n pre p info how sa verf h
 
+/-- a SETATTR carrying a guard (a ctime the object does not have) changes nothing — not the size either — and is not
+    answered NFS3_OK, whatever else the request asks for -/
+theorem guarded_setattr_changes_nothing (s : St) (c : Ctx) (args : Bytes) (h : Nat) (r1 r2 r3 : Bytes) (sa : Sattr3) (guard : Nat)
+    (h1 : decFh' s args = some (h, r1)) (h2 : decSattr3 r1 = some (sa, r2)) (h3 : decU32 r2 = some (guard, r3))
+    (hg : guard ≠ 0) :
+    (procSetattr s c args).1.fs = s.fs ∧ ∃ st b, (procSetattr s c args).2 = res st b ∧ st ≠ 0 :=
+  procSetattr_guarded s c args h r1 r2 r3 sa guard h1 h2 h3 hg
+
 end Props.C01
